@@ -92,15 +92,22 @@ func (loc *Location) Control() *Control {
 	// ToDo: Consider sync.atomic.LoadPointer() or sync.atomic.Value.
 	loc.RLock()
 	p := loc.control
-	if p == nil {
-		// Watch out: allocation that perhaps we don't want.
-		p = SystemParameters.DefaultControl
-		if p == nil {
-			p = DefaultControl()
-		}
-		loc.control = p
-	}
 	loc.RUnlock()
+	if p == nil {
+		// Writing the default needs the write lock, and
+		// somebody else might have written it in the meantime.
+		loc.Lock()
+		p = loc.control
+		if p == nil {
+			// Watch out: allocation that perhaps we don't want.
+			p = SystemParameters.DefaultControl
+			if p == nil {
+				p = DefaultControl()
+			}
+			loc.control = p
+		}
+		loc.Unlock()
+	}
 	return p
 }
 
